@@ -7,6 +7,8 @@ import (
 	"go/types"
 	"sort"
 	"strings"
+
+	"golang.org/x/tools/go/ssa"
 )
 
 func init() {
@@ -104,6 +106,12 @@ func checkC12(w *World, r *Report) {
 			})
 		}
 	})
+
+	r.Rule("R12.6", "an existing sibling is never overwritten: the store into the name-keyed child map is reachable only through the not-present branch of a presence test on the same key, whose present branch returns the redefinition error; addChoice appends only after a full scan that returns the error on an equal name", 2)
+	r.guard("R12.6", func() { c12NoOverwrite(w, r) })
+
+	r.Rule("R12.7", "references are resolved where they are written: every getModuleAndReference call looks the reference up in Root() of the referring statement (the grouping's module), and package compile never consults UsesRoot()", 4)
+	r.guard("R12.7", func() { c12LexicalScope(w, r) })
 
 	r.Rule("R12.5", "no schema-construction error is forgotten: in package schema every error result bound to a variable is examined", 1)
 	r.guard("R12.5", func() { errRule(w, r, "R12.5", []string{"schema"}, nil) })
@@ -492,6 +500,40 @@ func checkC15(w *World, r *Report) {
 			}
 			r.Check(good && n == 1, "R15.2", c.fn+" prefix map", fd.Pos(), "closure resolves through the node whose "+c.textMeth+"() is compiled", "the prefix map of "+c.fn+" resolves prefixes through a different node than the statement that is written: after uses/augment copied the statement into another module its prefixes are looked up in the wrong import table")
 		}
+	})
+
+	r.Rule("R15.5", "text and prefix scope belong to the same statement: at every machine constructor call in package compile the expression text is read directly from a parse statement and the prefix-mapping closure resolves through that very statement", 5)
+	r.guard("R15.5", func() { c15TextAndScope(w, r) })
+
+	r.Rule("R15.6", "prefix lookup is first-match: the scan of a module's import statements in getPfxName carries no state from one import to the next (it returns at the first import whose prefix matches — the module's own imports precede those merged from its submodules)", 1)
+	r.guard("R15.6", func() {
+		f := w.SSAFunc(w.Func("parse", "getPfxName"))
+		if f == nil {
+			panic(undecided{"parse.getPfxName"})
+		}
+		loops := ssaLoops(f)
+		if len(loops) != 1 {
+			panic(undecided{"parse.getPfxName: expected one loop"})
+		}
+		l := loops[0]
+		bad := ""
+		for _, in := range l.Header.Instrs {
+			phi, ok := in.(*ssa.Phi)
+			if !ok {
+				continue
+			}
+			ind := true
+			for _, lt := range l.Latches {
+				bo, ok := phiEdge(phi, lt).(*ssa.BinOp)
+				if !ok || bo.Op != token.ADD || bo.X != phi {
+					ind = false
+				}
+			}
+			if !ind && !loopCarriedIndependent(phi, l) {
+				bad = phi.Comment
+			}
+		}
+		r.Check(bad == "", "R15.6", "getPfxName import scan", f.Pos(), "no loop-carried result: the first matching import decides", "variable "+bad+" is carried through the scan: a later import with the same prefix (merged from an included submodule) overrides the module's own import")
 	})
 
 	r.Rule("R15.3", "prefix lookup goes through the defining module: GetModuleByPrefix (and what it calls) reads the node's defining tree, never the using tree; only the empty prefix takes the context-dependent namespace; an unknown prefix is an error unless unknowns are skipped", 3)
